@@ -54,20 +54,19 @@ func codecValues(vg *ValueGen, md protoreflect.MessageDescriptor, nRandom int, r
 	out = append(out, vg.Random(md, 1.0))
 	labels = append(labels, "full")
 	fds := md.Fields()
-	// directed: every singular enum field holds a number the enum does not define
+	// directed: every enum position (singular, list element, map value; in the message itself and in
+	// its message-typed children, two levels down) holds a number the enum does not define
 	{
 		u := vg.Random(md, 1.0)
-		n := 0
-		for i := 0; i < fds.Len(); i++ {
-			fd := fds.Get(i)
-			if fd.Kind() == protoreflect.EnumKind && !fd.IsList() && !fd.IsMap() && fd.ContainingOneof() == nil {
-				u.Set(fd, protoreflect.ValueOfEnum(99))
-				n++
-			}
-		}
-		if n > 0 {
+		if n := setUnknownEnums(u, 0); n > 0 {
 			out = append(out, u)
 			labels = append(labels, "undefined-enum-numbers")
+		}
+		// and the same on an otherwise empty message (no other field can mask the outcome)
+		e := dynamicpb.NewMessage(md)
+		if n := setUnknownEnums(e, 0); n > 0 {
+			out = append(out, e)
+			labels = append(labels, "undefined-enum-numbers-only")
 		}
 	}
 	for i := 0; i < fds.Len(); i++ {
@@ -419,3 +418,81 @@ func CheckC04(run *Run) {
 	run.Finish()
 }
 
+
+// setUnknownEnums puts the undefined number 99 into every enum position of m (creating message
+// children, one list element and one map entry where needed) and returns how many it set.
+func setUnknownEnums(m protoreflect.Message, depth int) int {
+	if depth > 2 || m.Descriptor().FullName() == "google.protobuf.Timestamp" {
+		return 0
+	}
+	n := 0
+	fds := m.Descriptor().Fields()
+	for i := 0; i < fds.Len(); i++ {
+		fd := fds.Get(i)
+		if o := fd.ContainingOneof(); o != nil && !o.IsSynthetic() {
+			continue
+		}
+		unk := protoreflect.ValueOfEnum(99)
+		switch {
+		case fd.IsMap():
+			vfd := fd.MapValue()
+			mp := m.Mutable(fd).Map()
+			var key protoreflect.MapKey
+			switch fd.MapKey().Kind() {
+			case protoreflect.StringKind:
+				key = protoreflect.ValueOfString("k").MapKey()
+			case protoreflect.BoolKind:
+				key = protoreflect.ValueOfBool(true).MapKey()
+			case protoreflect.Int32Kind, protoreflect.Sint32Kind, protoreflect.Sfixed32Kind:
+				key = protoreflect.ValueOfInt32(1).MapKey()
+			case protoreflect.Int64Kind, protoreflect.Sint64Kind, protoreflect.Sfixed64Kind:
+				key = protoreflect.ValueOfInt64(1).MapKey()
+			case protoreflect.Uint32Kind, protoreflect.Fixed32Kind:
+				key = protoreflect.ValueOfUint32(1).MapKey()
+			default:
+				key = protoreflect.ValueOfUint64(1).MapKey()
+			}
+			if vfd.Kind() == protoreflect.EnumKind {
+				mp.Set(key, unk)
+				n++
+			} else if vfd.Kind() == protoreflect.MessageKind {
+				v := mp.NewValue()
+				if k := setUnknownEnums(v.Message(), depth+1); k > 0 {
+					mp.Set(key, v)
+					n += k
+				} else if mp.Len() == 0 {
+					m.Clear(fd)
+				}
+			} else if mp.Len() == 0 {
+				m.Clear(fd)
+			}
+		case fd.IsList():
+			l := m.Mutable(fd).List()
+			if fd.Kind() == protoreflect.EnumKind {
+				l.Append(unk)
+				n++
+			} else if fd.Kind() == protoreflect.MessageKind {
+				v := l.NewElement()
+				if k := setUnknownEnums(v.Message(), depth+1); k > 0 {
+					l.Append(v)
+					n += k
+				} else if l.Len() == 0 {
+					m.Clear(fd)
+				}
+			} else if l.Len() == 0 {
+				m.Clear(fd)
+			}
+		case fd.Kind() == protoreflect.EnumKind:
+			m.Set(fd, unk)
+			n++
+		case fd.Kind() == protoreflect.MessageKind:
+			had := m.Has(fd)
+			if k := setUnknownEnums(m.Mutable(fd).Message(), depth+1); k > 0 {
+				n += k
+			} else if !had {
+				m.Clear(fd)
+			}
+		}
+	}
+	return n
+}
